@@ -26,6 +26,14 @@ def run(tier: str, keep: bool = False) -> int:
     r.model("crcFreeK1", 'FamAll(3, {2}, {"CRC32"})', K=1, faults=ALL + ["delay"], pacing="free", invariants=["C01"], timeout=1500)
     if not q:
         r.model("crcK3", 'FamAll(4, {1, 3}, {"CRC32"})', K=3, faults=ALL, invariants=["C01"], timeout=2400)
+    # the receiver alone under adversarial PDUs (data beyond the file, wrong checksums, EOF before the data, rejected writes;
+    # not: an EOF that consistently describes a shorter file - a lying sender is not among the faults C01 lists)
+    # with fault-handler tables that ignore the size / checksum faults: whatever arrives, success is never reported for a file
+    # that differs from the source file (monitor C01 as TLC invariant of every input sequence; CRC-32: no collisions in range)
+    famT = ('Numbered({ [SoloBase(2, 1, 1) EXCEPT !.mode = m, !.closure = TRUE, !.fhD = [FhDefault EXCEPT !.FILE_SIZE_ERROR = a, '
+            '!.FILE_CHECKSUM_FAILURE = b]] : m \\in {"ACK", "UNACK"}, a \\in {"ignore", "cancel"}, b \\in {"ignore", "cancel"} })')
+    r.solo("receiver", "D", famT, ["fd", "fdodd", "wrej", "eof", "eofbad", "tick", "poll"], 6 if q else 7, ["C01", "C10"], pre=[["md"]],
+           limit=5000 if q else 60000)
     props = ["C01", "C06", "C10", "C15"]
     r.schedules("schedK1", 'FamAll(3, {0, 1, 3}, {"CRC32", "CRC32C"})', props, K=1, faults=ALL)
     r.schedules("schedK2", 'FamAll(3, {1, 3}, {"CRC32"})', props, K=2, faults=["drop", "dup", "swap", "flip", "wrej"], limit=700 if q else None)
